@@ -426,7 +426,7 @@ def split_headers(src, log):
         kf = [x for x in _for_loops(toks) if x[1] == kin][0][0]
         _r12[0] += 1
         var = "verif_split%d" % _r12[0]
-        src = (text(toks, 0, kf) + "let %s = verif_split_multi(%s); " % (var, recv) + text(toks, kf, kin + 1)
+        src = (text(toks, 0, kf) + "let %s = verif_split_multi(&%s); " % (var, recv) + text(toks, kf, kin + 1)
                + " %s " % var + text(toks, bo, len(toks)))
         log.append({"rule": "R12", "receiver": recv, "var": var})
     raise ExtractError("R12 did not converge")
